@@ -16,31 +16,31 @@ Proof. destruct p; vm_compute; reflexivity. Qed.
 
 (* declared C types mean what the macro compiles: parameters over primitives, for both Option spellings *)
 Theorem param_abi_agrees_prim : forall env sp p mu,
-  (c_decl_abi env (PV (VPrim p)) = Some (norm (ffi_param_abi env (PV (VPrim p))))) /\
-  (c_decl_abi env (POpt sp (VPrim p)) = Some (norm (ffi_param_abi env (POpt sp (VPrim p))))) /\
-  (c_decl_abi env (PSlice p mu) = Some (norm (ffi_param_abi env (PSlice p mu)))) /\
-  (c_decl_abi env (POptSlice p) = Some (norm (ffi_param_abi env (POptSlice p)))).
+  option_map norm (c_decl_abi env (PV (VPrim p))) = Some (norm (ffi_param_abi env (PV (VPrim p)))) /\
+  option_map norm (c_decl_abi env (POpt sp (VPrim p))) = Some (norm (ffi_param_abi env (POpt sp (VPrim p)))) /\
+  option_map norm (c_decl_abi env (PSlice p mu)) = Some (norm (ffi_param_abi env (PSlice p mu))) /\
+  option_map norm (c_decl_abi env (POptSlice p)) = Some (norm (ffi_param_abi env (POptSlice p))).
 Proof. intros env sp p mu. destruct p, mu; vm_compute; repeat split. Qed.
 
 Theorem param_abi_agrees_other : forall env sp n mu w,
-  c_decl_abi env (PV (VEnum n)) = Some (norm (ffi_param_abi env (PV (VEnum n)))) /\
-  c_decl_abi env (POpt sp (VEnum n)) = Some (norm (ffi_param_abi env (POpt sp (VEnum n)))) /\
-  c_decl_abi env (PORef mu) = Some (norm (ffi_param_abi env (PORef mu))) /\
-  c_decl_abi env POOpt = Some (norm (ffi_param_abi env POOpt)) /\
-  c_decl_abi env PWrite = Some (norm (ffi_param_abi env PWrite)) /\
-  c_decl_abi env (PStr w) = Some (norm (ffi_param_abi env (PStr w))) /\
-  c_decl_abi env POptStr = Some (norm (ffi_param_abi env POptStr)).
+  option_map norm (c_decl_abi env (PV (VEnum n))) = Some (norm (ffi_param_abi env (PV (VEnum n)))) /\
+  option_map norm (c_decl_abi env (POpt sp (VEnum n))) = Some (norm (ffi_param_abi env (POpt sp (VEnum n)))) /\
+  option_map norm (c_decl_abi env (PORef mu)) = Some (norm (ffi_param_abi env (PORef mu))) /\
+  option_map norm (c_decl_abi env POOpt) = Some (norm (ffi_param_abi env POOpt)) /\
+  option_map norm (c_decl_abi env PWrite) = Some (norm (ffi_param_abi env PWrite)) /\
+  option_map norm (c_decl_abi env (PStr w)) = Some (norm (ffi_param_abi env (PStr w))) /\
+  option_map norm (c_decl_abi env POptStr) = Some (norm (ffi_param_abi env POptStr)).
 Proof. intros env sp n mu w. destruct mu, w; vm_compute; repeat split. Qed.
 
 (* by-value structs and options of structs: equal whenever the struct itself is laid out as declared
    (non-zero-sized, already in normal form) *)
 Theorem param_abi_agrees_struct : forall env sp n,
   is_zst (env n) = false -> norm (env n) = env n ->
-  c_decl_abi env (PV (VStruct n)) = Some (norm (ffi_param_abi env (PV (VStruct n)))) /\
-  c_decl_abi env (POpt sp (VStruct n)) = Some (norm (ffi_param_abi env (POpt sp (VStruct n)))).
+  option_map norm (c_decl_abi env (PV (VStruct n))) = Some (norm (ffi_param_abi env (PV (VStruct n)))) /\
+  option_map norm (c_decl_abi env (POpt sp (VStruct n))) = Some (norm (ffi_param_abi env (POpt sp (VStruct n)))).
 Proof.
-  intros env sp n Hz Hn. cbn [c_decl_abi ffi_param_abi vty_abi result_abi opt_struct]. split; [now rewrite Hn|].
-  simpl. rewrite Hz. simpl. now rewrite Hn.
+  intros env sp n Hz Hn. cbn [c_decl_abi ffi_param_abi vty_abi result_abi opt_struct option_map]. split; [reflexivity|].
+  simpl. rewrite Hz. simpl. reflexivity.
 Qed.
 
 (* C10: the spelling of Option is irrelevant for the declaration and the representation *)
@@ -80,3 +80,12 @@ Example layout_example :
   size_align (ARec [AI 2 true; ARec [AI 1 false; AI 4 false]; AI 4 true; AF 8; ARec [AUni [AI 1 false]; ABool]]) = (32, 8)%N /\
   offsets [AI 2 true; ARec [AI 1 false; AI 4 false]; AI 4 true; AF 8; ARec [AUni [AI 1 false]; ABool]] = [0; 4; 12; 16; 24]%N.
 Proof. vm_compute. split; reflexivity. Qed.
+
+(* ---- C07 (Tie A): the primitive tables of the Dart and Kotlin formatters ---- *)
+Theorem dart_prim_agrees : forall p, dart_name_abi (dart_prim_ffi p) = Some (rust_prim_abi p).
+Proof. destruct p; vm_compute; reflexivity. Qed.
+
+Theorem kotlin_prim_agrees_width : forall p,
+  option_map erase_sign (kt_name_abi (kt_prim_ffi p)) = Some (erase_sign (rust_prim_abi p)) /\
+  option_map erase_sign (kt_name_abi (kt_prim_native p)) = Some (erase_sign (rust_prim_abi p)).
+Proof. destruct p; vm_compute; split; reflexivity. Qed.
